@@ -39,6 +39,16 @@ def scenarios(thorough):
             out.append(cc.mk([P(1)], room=10, extra_client=[["read", 20], ["read", 20], ["readall"]], second=other(), drains=False,
                              faults={"send": [None] * nth + [e]}, apps={1: {"chunks": [40, 40, 40], "cl": "none"}},
                              adj={"outbuf_high_watermark": 30}, name="producer over watermark, send#%d fails %s" % (nth + 1, errno.errorcode[e])))
+    # ... and teardown paths that do not pass through the lockable flush: a non-disconnect errno on send, EOF/reset seen by recv (lookahead > 0)
+    for e in (errno.EINVAL, errno.ETIMEDOUT):
+        for nth in (2, 3):
+            out.append(cc.mk([P(1)], room=10, extra_client=[["read", 20], ["read", 20], ["readall"]], second=other(), drains=False,
+                             faults={"send": [None] * nth + [e]}, apps={1: {"chunks": [40, 40, 40], "cl": "none"}},
+                             adj={"outbuf_high_watermark": 30}, name="producer over watermark, send#%d fails %s" % (nth + 1, errno.errorcode[e])))
+    for how in ("close", "reset"):
+        out.append(cc.mk([P(1)], lookahead=1, room=10, extra_client=[["read", 5], [how]], second=other(), drains=False,
+                         apps={1: {"chunks": [40, 40, 40], "cl": "none"}}, adj={"outbuf_high_watermark": 30},
+                         name="producer over watermark, lookahead=1, client %s" % how))
     # faults while the connection is being set up
     for op in ("getsockopt", "setsockopt", "setblocking"):
         for e in (errno.EINVAL, errno.ECONNRESET, errno.EBADF):
